@@ -8,8 +8,8 @@
    number of clients each with or without L1) by ANY finite sequence of store / fetch / rise / clear /
    evict / stats / clock tick / raw foreign frame operations by any clients in any order.
    `quiet o` = o is a fetch, an L1 eviction or a stats call (operations that only read the servers). *)
-From CppcmsV Require Import Base.Tac Base.CSem C10.Defs C10.Proofs C10.Coherence C10.Codec C10.Effects C10.Refine C10.Placement C10.Link
-  gen.Gen_tcphash.
+From CppcmsV Require Import Base.Tac Base.CSem C10.Defs C10.Proofs C10.Coherence C10.Codec C10.Effects C10.Refine C10.Placement C10.Triggers C10.Link
+  gen.Gen_tcphash gen.Gen_tcpproto.
 Local Open Scope N_scope.
 
 (* ---------------------------------------------------------------------------------------------------------
@@ -142,6 +142,17 @@ Proof.
   - split; reflexivity.
 Qed.
 
+(* the assumption "no cache server restart" (reachable has no such event) is necessary: a restarted server (empty, generation
+   counter back at 0; Defs.restart) makes the handshake confirm a record of the previous incarnation - witness replayed on the
+   implementation (docs/C10_restart.case) *)
+Theorem restart_breaks_handshake :
+  let w := snd (run (init_world 1 [true; false]) [OStore 1 [107] [49] [] 2000; OFetch 0 [107] true]) in
+  let w1 := snd (step (restart w 0) (OStore 1 [107] [50] [] 2000)) in
+  fst (step w1 (OFetch 0 [107] true)) = ObsFetch (Some ([49], [[107]], 2000%Z)) /\
+  fst (step w1 (OFetch 1 [107] true)) = ObsFetch (Some ([50], [[107]], 2000%Z)).
+Proof. vm_compute. split; reflexivity. Qed.
+Print Assumptions restart_breaks_handshake.
+
 (* ---------------------------------------------------------------------------------------------------------
    3. codec_roundtrip, on the exact domain.  Header: 40 bytes <-> ten 32-bit fields.  Store: the frame
       built by tcp_cache::store for key k (non-empty), value v (any bytes, also empty or with NULs), a sorted
@@ -186,6 +197,26 @@ Print Assumptions trigger_set_normal_form.
 Theorem deadline_roundtrip : forall z, int64 z -> z64_of (z64_lo z) (z64_hi z) = z.
 Proof. exact z64_roundtrip. Qed.
 Print Assumptions deadline_roundtrip.
+(* at system level: every record on every server of every reachable world (also after foreign raw frames) has its trigger
+   set in std::set normal form, and a fetch-with-triggers by a node without L1 returns the value, the deadline and the
+   trigger set of the responsible server's record unchanged when the names are NUL-free (for nodes with an L1 the value and
+   deadline are covered by fetch_current; their trigger set may in addition contain the names of the L1 copy) *)
+Theorem server_trigger_sets_normal : forall w i s k e,
+  reachable w -> nth_error (w_srv w) i = Some s -> In (k, e) (c_items s) -> ssorted (e_trg e).
+Proof. exact reachable_sorted. Qed.
+Print Assumptions server_trigger_sets_normal.
+Theorem fetch_returns_trigger_set_unchanged : forall w c k r w1 s e,
+  reachable w -> nth_error (w_cli w) c = Some None ->
+  nth_error (w_srv w) (server_of (nsrv w) k) = Some s -> c_fetch (w_now w) k s = Some e ->
+  Forall nul_free (e_trg e) ->
+  step w (OFetch c k true) = (ObsFetch r, w1) -> r = Some (e_val e, e_trg e, e_dl e).
+Proof. exact fetch_triggers_no_l1. Qed.
+Print Assumptions fetch_returns_trigger_set_unchanged.
+Example fetch_triggers_nonvacuous :
+  let w := snd (run (init_world 2 [true; false]) [OStore 0 [107] [0; 49] [[117]; [116]; [116]] 2000]) in
+  nth_error (w_cli w) 1 = Some None /\
+  fst (step w (OFetch 1 [107] true)) = ObsFetch (Some ([0; 49], [[107]; [116]; [117]], 2000%Z)).
+Proof. vm_compute. split; reflexivity. Qed.
 Theorem codec_roundtrip_refuted_outside_domain :
   (exists k v trg dl c now,
      fst (fst (srv_handle now (fst (enc_store k v trg dl)) (snd (enc_store k v trg dl)) c)) = hdr0 op_error /\
@@ -237,6 +268,33 @@ Print Assumptions hash_step_is_source.
 Theorem hash_is_source : forall key, fold_left g_hash_step (map Z.of_N key) g_hash_init = Z.of_N (hash_raw key).
 Proof. exact link_hash_raw. Qed.
 Print Assumptions hash_is_source.
+(* the opcode numbers and the header layout of the model are those of private/tcp_cache_protocol.h as it is now
+   (enumerators and sizeof/offsetof evaluated by clang, coq/gen/Gen_tcpproto.v): every accessor of the model reads
+   the header word at the offset the source declares for that field *)
+Theorem opcodes_are_source :
+  g_op_fetch = Z.of_N op_fetch /\ g_op_rise = Z.of_N op_rise /\ g_op_clear = Z.of_N op_clear /\
+  g_op_store = Z.of_N op_store /\ g_op_stats = Z.of_N op_stats /\ g_op_error = Z.of_N op_error /\
+  g_op_done = Z.of_N op_done /\ g_op_data = Z.of_N op_data /\ g_op_no_data = Z.of_N op_no_data /\
+  g_op_uptodate = Z.of_N op_uptodate /\ g_op_out_stats = Z.of_N op_out_stats /\
+  NoDup g_opcodes.
+Proof. exact link_opcodes. Qed.
+Print Assumptions opcodes_are_source.
+Theorem header_layout_is_source : forall h, hdr_ok h ->
+  Z.of_nat (length (hdr_bytes h)) = g_size_of_header /\ g_size_of_time_t = 8%Z /\
+  word_at h g_off_opcode = h_op h /\ word_at h g_off_size = h_size h /\
+  word_at h g_off_filler = h_f0 h /\ word_at h (g_off_filler + 4) = h_f1 h /\
+  word_at h g_off_fetch_current_gen = h_u0 h /\ word_at h (g_off_fetch_current_gen + 4) = h_u1 h /\
+  word_at h g_off_fetch_key_len = h_u2 h /\ word_at h (g_off_fetch_key_len + 4) = h_u3 h /\
+  word_at h g_off_rise_trigger_len = h_u0 h /\
+  word_at h g_off_store_timeout = h_u0 h /\ word_at h (g_off_store_timeout + 4) = h_u1 h /\
+  word_at h g_off_store_key_len = h_u2 h /\ word_at h g_off_store_data_len = h_u3 h /\
+  word_at h g_off_store_triggers_len = h_u4 h /\
+  word_at h g_off_data_generation = h_u0 h /\ word_at h (g_off_data_generation + 4) = h_u1 h /\
+  word_at h g_off_data_timeout = h_u2 h /\ word_at h (g_off_data_timeout + 4) = h_u3 h /\
+  word_at h g_off_data_data_len = h_u4 h /\ word_at h g_off_data_triggers_len = h_u5 h /\
+  word_at h g_off_out_stats_keys = h_u0 h /\ word_at h g_off_out_stats_triggers = h_u1 h.
+Proof. exact link_layout. Qed.
+Print Assumptions header_layout_is_source.
 Example key_spread_nonvacuous :
   server_of 2 [107] = 1%nat /\ server_of 2 [108] = 0%nat /\ server_of 3 [107] = 2%nat /\
   hash_raw [255; 255; 255; 255; 255; 255; 255; 255; 255] = 831298521.
